@@ -7,9 +7,13 @@
            create <level>        create/init argument grids + k-th allocation fails
            funcs                 gen_toc on its whole domain, frame_size_select grid
            honour <seed> <n>     settings fixed before the first frame -> TOC of every packet
+           silkbw <seed> <n>     silk_control_audio_bandwidth called directly on random states / control inputs
+           silkenc <seed> <n>    SILK-heavy encoder histories; every silk_control_audio_bandwidth call made inside
+                                 the real encoder is logged through ld --wrap and emitted as one `silkbwseq` line
 
    The TU includes the encoder/decoder sources so that static functions (gen_toc) and the
-   state structs are visible; link with -Wl,--wrap=malloc -Wl,--wrap=free (allocation failure). */
+   state structs are visible; link with -Wl,--wrap=malloc -Wl,--wrap=free (allocation failure)
+   -Wl,--wrap=silk_control_audio_bandwidth (SILK internal rate log). */
 #define CELT_ENCODER_C
 #define CELT_DECODER_C
 #include "vcommon.h"
@@ -46,6 +50,32 @@ void __wrap_free(void *p)
 {
    if (p) { int i; for (i = 0; i < V_MAXP; i++) if (v_ptrs[i] == p) { v_ptrs[i] = NULL; v_live--; break; } }
    __real_free(p);
+}
+
+/* ------------------------------------------------------------------ SILK internal-rate interposer */
+opus_int __real_silk_control_audio_bandwidth(silk_encoder_state *psEncC, silk_EncControlStruct *encControl);
+static OpusEncoder *bw_enc = NULL;      /* encoder whose calls are logged (NULL: pass through) */
+typedef struct { int v[17]; } bwent;
+static bwent *bwlog = NULL; static int nbw = 0, capbw = 0;
+opus_int __wrap_silk_control_audio_bandwidth(silk_encoder_state *psEncC, silk_EncControlStruct *encControl)
+{
+   silk_encoder *se; bwent e; int old, r;
+   if (!bw_enc) return __real_silk_control_audio_bandwidth(psEncC, encControl);
+   se = (silk_encoder *)(void *)((char *)bw_enc + bw_enc->silk_enc_offset);
+   if (psEncC == &se->state_Fxx[0].sCmn) e.v[0] = 0;
+   else if (psEncC == &se->state_Fxx[1].sCmn) e.v[0] = 1;
+   else return __real_silk_control_audio_bandwidth(psEncC, encControl);
+   e.v[1] = psEncC->fs_kHz; e.v[2] = psEncC->sLP.saved_fs_kHz; e.v[3] = psEncC->sLP.mode; e.v[4] = psEncC->sLP.transition_frame_no;
+   e.v[5] = psEncC->API_fs_Hz; e.v[6] = psEncC->desiredInternal_fs_Hz; e.v[7] = psEncC->maxInternal_fs_Hz;
+   e.v[8] = psEncC->minInternal_fs_Hz; e.v[9] = psEncC->allow_bandwidth_switch != 0; e.v[10] = encControl->opusCanSwitch != 0;
+   old = encControl->switchReady; encControl->switchReady = 0;     /* observe "was set by this call" without changing the outcome */
+   r = __real_silk_control_audio_bandwidth(psEncC, encControl);
+   e.v[11] = r; e.v[12] = psEncC->sLP.mode; e.v[13] = psEncC->sLP.transition_frame_no; e.v[14] = encControl->switchReady != 0;
+   if (old) encControl->switchReady = old;
+   e.v[15] = bw_enc->mode; e.v[16] = bw_enc->bandwidth;
+   if (nbw == capbw) { capbw = capbw ? capbw * 2 : 1024; bwlog = (bwent *)realloc(bwlog, capbw * sizeof(bwent)); }
+   bwlog[nbw++] = e;
+   return r;
 }
 
 /* ------------------------------------------------------------------ request tables */
@@ -1043,6 +1073,91 @@ static void run_honourdtx(void)
 }
 
 /* ------------------------------------------------------------------ replay of history lines (stdin), used to shrink witnesses */
+/* ------------------------------------------------------------------ SILK internal rate */
+/* silk_control_audio_bandwidth on constructed states: every field it reads is set, everything else zero */
+static void run_silkbw(uint64_t seed, long cases)
+{
+   static const int KHZ[4] = {0, 8, 12, 16}; static const int HZ[3] = {8000, 12000, 16000};
+   vrng r; long c; r.s = seed * 0x9E3779B97F4A7C15ULL + 77;
+   for (c = 0; c < cases; c++) {
+      static silk_encoder_state S; silk_EncControlStruct C; int ret;
+      memset(&S, 0, sizeof(S)); memset(&C, 0, sizeof(C));
+      S.fs_kHz = KHZ[vbelow(&r, 4)];
+      S.sLP.saved_fs_kHz = vchance(&r, 60) ? 0 : KHZ[vbelow(&r, 4)];
+      S.sLP.mode = vchance(&r, 80) ? vrange(&r, -2, 1) : vrange(&r, -4, 4);
+      S.sLP.transition_frame_no = vchance(&r, 40) ? (vchance(&r, 50) ? 0 : TRANSITION_FRAMES) : vrange(&r, -3, TRANSITION_FRAMES + 3);
+      S.API_fs_Hz = FSS[vbelow(&r, 5)];
+      S.desiredInternal_fs_Hz = HZ[vbelow(&r, 3)]; S.maxInternal_fs_Hz = HZ[vbelow(&r, 3)]; S.minInternal_fs_Hz = HZ[vbelow(&r, 3)];
+      if (vchance(&r, 70) && S.minInternal_fs_Hz > S.maxInternal_fs_Hz) S.minInternal_fs_Hz = 8000;
+      S.allow_bandwidth_switch = vchance(&r, 50); C.opusCanSwitch = vchance(&r, 40);
+      C.maxBits = 1000 + (int)vbelow(&r, 9000); C.payloadSize_ms = 20; C.switchReady = 0;
+      printf("I ctl silkbw %d %d %d %d %d %d %d %d %d %d\n", S.fs_kHz, S.sLP.saved_fs_kHz, S.sLP.mode, S.sLP.transition_frame_no,
+             S.API_fs_Hz, S.desiredInternal_fs_Hz, S.maxInternal_fs_Hz, S.minInternal_fs_Hz, S.allow_bandwidth_switch, C.opusCanSwitch);
+      fflush(stdout);
+      ret = __real_silk_control_audio_bandwidth(&S, &C);
+      printf("O %d %d %d %d\n", ret, S.sLP.mode, S.sLP.transition_frame_no, C.switchReady != 0);
+   }
+}
+
+static void silk_emit(int Fs)
+{
+   int i, k;
+   if (nbw == 0) return;
+   printf("I ctl silkbwseq %d", Fs);
+   for (i = 0; i < nbw; i++) { printf(" "); for (k = 0; k < 17; k++) printf(k ? ",%d" : "%d", bwlog[i].v[k]); }
+   printf("\nO ok %d\n", nbw); fflush(stdout);
+}
+
+/* SILK-heavy histories on the real encoder: SILK-only / hybrid forced or chosen by rate, bandwidth limits moved up and
+   down mid-stream, long quiet stretches (bandwidth switches need low speech activity and up to 128 frames), tiny byte
+   budgets (effective_max_rate < 8000 / 7000), mode switches through CELT (prefill), resets, mono <-> stereo */
+static void run_silkenc(uint64_t seed, long cases)
+{
+   vrng r; long c; static unsigned char out[1500]; r.s = seed * 0x9E3779B97F4A7C15ULL + 99;
+   for (c = 0; c < cases; c++) {
+      int Fs = FSS[vbelow(&r, 5)], ch = 1 + (int)vbelow(&r, 2), app = vchance(&r, 70) ? 2048 : 2049, err = 0;
+      int nops = 30 + (int)vbelow(&r, vchance(&r, 30) ? 400 : 80), i, sig = (int)vbelow(&r, 5), ms = vchance(&r, 75) ? 20 : (vchance(&r, 50) ? 10 : (vchance(&r, 50) ? 40 : 60));
+      int small = 0;
+      OpusEncoder *st = opus_encoder_create(Fs, ch, app, &err);
+      opus_int16 *pcm;
+      if (!st) continue;
+      pcm = (opus_int16 *)calloc((size_t)Fs * 3 / 50 * ch + 16, sizeof(opus_int16));
+      opus_encoder_ctl(st, OPUS_SET_COMPLEXITY(vchance(&r, 80) ? 0 : (int)vbelow(&r, 11)));
+      if (vchance(&r, 80)) opus_encoder_ctl(st, OPUS_SET_FORCE_MODE(vchance(&r, 80) ? MODE_SILK_ONLY : MODE_HYBRID));
+      opus_encoder_ctl(st, OPUS_SET_BITRATE(vchance(&r, 50) ? vrange(&r, 5000, 16000) : vrange(&r, 16000, 64000)));
+      if (vchance(&r, 30)) opus_encoder_ctl(st, OPUS_SET_VBR(0));
+      if (vchance(&r, 50)) opus_encoder_ctl(st, OPUS_SET_BANDWIDTH(vrange(&r, 1101, 1105)));
+      nbw = 0; bw_enc = st;
+      for (i = 0; i < nops; i++) {
+         if (vchance(&r, 90)) {
+            int fsz = Fs / 1000 * ms, bytes = small ? vrange(&r, 8, 24) : 1276;
+            vrng pr; pr.s = vnext(&r);
+            gen_pcm(&pr, pcm, fsz, ch, sig);
+            opus_encode(st, pcm, fsz, out, bytes);
+            continue;
+         }
+         switch (vbelow(&r, 12)) {
+         case 0: case 1: opus_encoder_ctl(st, OPUS_SET_BANDWIDTH(vchance(&r, 15) ? OPUS_AUTO : vrange(&r, 1101, 1105))); break;
+         case 2: opus_encoder_ctl(st, OPUS_SET_MAX_BANDWIDTH(vrange(&r, 1101, 1105))); break;
+         case 3: opus_encoder_ctl(st, OPUS_SET_BITRATE(vchance(&r, 50) ? vrange(&r, 5000, 14000) : vrange(&r, 14000, 80000))); break;
+         case 4: sig = vchance(&r, 60) ? 0 : (int)vbelow(&r, 5); break;
+         case 5: small = !small; break;
+         case 6: opus_encoder_ctl(st, OPUS_SET_FORCE_CHANNELS(vchance(&r, 40) ? OPUS_AUTO : vrange(&r, 1, ch))); break;
+         case 7: if (vchance(&r, 40)) { static const int M[4] = {MODE_SILK_ONLY, MODE_HYBRID, MODE_CELT_ONLY, OPUS_AUTO};
+                                         opus_encoder_ctl(st, OPUS_SET_FORCE_MODE(M[vbelow(&r, 4)])); } break;
+         case 8: if (vchance(&r, 25)) opus_encoder_ctl(st, OPUS_RESET_STATE); break;
+         case 9: opus_encoder_ctl(st, OPUS_SET_DTX(vchance(&r, 50))); break;
+         case 10: if (vchance(&r, 30)) ms = vchance(&r, 60) ? 20 : (vchance(&r, 50) ? 10 : (vchance(&r, 50) ? 40 : 60)); break;
+         default: opus_encoder_ctl(st, OPUS_SET_INBAND_FEC(vrange(&r, 0, 2))); opus_encoder_ctl(st, OPUS_SET_PACKET_LOSS_PERC(vrange(&r, 0, 30))); break;
+         }
+      }
+      bw_enc = NULL;
+      silk_emit(Fs);
+      free(pcm);
+      opus_encoder_destroy(st);
+   }
+}
+
 static int hexmap(const char *h, unsigned char *out)
 { int n = 0; if (*h == 'x') h++; while (h[0] && h[1]) { unsigned v; sscanf(h, "%2x", &v); out[n++] = (unsigned char)v; h += 2; } return n; }
 static void run_lines(void)
@@ -1110,6 +1225,8 @@ int main(int argc, char **argv)
       else { static msop o[1]; static const unsigned char map[3] = {0, 1, 2}; o[0].kind = 's'; o[0].id = 4002; o[0].v = 64000;
              msenc_run(48000, 3, 2, 1, map, 2049, o, 1, &r); }
    }
+   else if (argc >= 4 && !strcmp(argv[1], "silkbw")) run_silkbw(strtoull(argv[2], 0, 10), atol(argv[3]));
+   else if (argc >= 4 && !strcmp(argv[1], "silkenc")) run_silkenc(strtoull(argv[2], 0, 10), atol(argv[3]));
    else if (argc >= 4 && !strcmp(argv[1], "honour")) run_honour(strtoull(argv[2], 0, 10), atol(argv[3]));
    else { fprintf(stderr, "usage: c11_ctl grid <level> | rand <seed> <n> | create <level> | funcs | honour <seed> <n>\n"); return 64; }
    fflush(stdout);
